@@ -8,7 +8,7 @@
 // (GORACE="halt_on_error=0 exitcode=0 log_path=…") writes one report per racing pair of accesses;
 // checks/C35.py maps the two stacks of a report to the access facts of the extractor.
 //
-//	vh_races_race [-ms 1500] [-seed 1] [-scenario all|collector|sentcache|stress|transmit|config|watcher|peers|metrics|envcache]
+//	vh_races_race [-ms 1500] [-seed 1] [-procs 8] [-scenario all|collector|sentcache|stress|transmit|config|watcher|peers|metrics|envcache]
 //
 // Output: one line `scenario <name> ops=<n>` per scenario, then `RACES-DONE`.
 package main
@@ -478,11 +478,10 @@ func main() {
 	ms := flag.Int("ms", 1500, "time budget per scenario in milliseconds")
 	sc := flag.String("scenario", "all", "scenario to run")
 	flag.Int64Var(&seed, "seed", 1, "unused by the scenarios (schedules are up to the runtime); recorded")
+	procs := flag.Int("procs", 8, "GOMAXPROCS (the sandbox may offer fewer CPUs than goroutines that must overlap)")
 	flag.Parse()
 	budget = time.Duration(*ms) * time.Millisecond
-	if runtime.GOMAXPROCS(0) < 8 {
-		runtime.GOMAXPROCS(8)
-	}
+	runtime.GOMAXPROCS(*procs)
 	all := []struct {
 		name string
 		f    func() int64
